@@ -2,7 +2,9 @@
 
 `find` runs (a) function-level checks of the 7z read-back loop, `_safe_join` and the skip rule, (b) the archive-level probes of
 `replay/C09_probe.py` (hostile ZIP / TAR / 7z corpus under a file-system observer, temp dir lifetime under every consumer history,
-skip rules in every format, oversize members).  The obligation that asked for the replay only decides which probe runs first."""
+skip rules in every format, oversize members).  The obligation that asked for the replay only decides which probe runs first.
+Round 5: sibling directories whose names extend the private directory's name (character-wise prefix tests); the two BOUNDED collision scopes
+(`name_collisions_7z`, `name_collisions_7z_known_temp_name` with tempfile's name sequence pinned) run only for their own obligations."""
 import os
 import sys
 import tempfile
@@ -27,9 +29,29 @@ def function_level():
         with open(canary, "w") as fh:
             fh.write("HOST-SECRET-CONTENT")
         rel = os.path.relpath(canary, temp_dir)
+        # directories NEXT TO the private one whose names extend its name (a character-wise prefix test lets them through)
+        bn = os.path.basename(temp_dir)
+        siblings = []
+        for suffix in ("_sib", "x", ".bak", "-2"):
+            d = temp_dir + suffix
+            os.mkdir(d)
+            siblings.append(d)
+            with open(os.path.join(d, "canary.txt"), "w") as fh:
+                fh.write("HOST-SECRET-CONTENT")
+        near = tuple(f"../{bn}{sfx}/canary.txt" for sfx in ("_sib", "x", ".bak", "-2")) + (f"a/../../{bn}x/canary.txt", f"../{bn.upper()}/canary.txt")
+        try:
+            return _function_level(ae, sevenzip, temp_dir, canary, rel, near, bn)
+        finally:
+            import shutil
+            for d in siblings:
+                shutil.rmtree(d, ignore_errors=True)
+
+
+def _function_level(ae, sevenzip, temp_dir, canary, rel, near, bn):
+    if True:
         seq = getattr(ae, "_process_7z_files_sequential", None)
         if seq is not None:
-            for name in (canary, rel, "sub/../" + rel, "/" + canary, rel.replace("/", "\\"), "..\\" + rel):
+            for name in (canary, rel, "sub/../" + rel, "/" + canary, rel.replace("/", "\\"), "..\\" + rel) + near:
                 try:
                     res = list(seq([(None, name, "canary.txt")], temp_dir, "a.7z"))
                 except Exception as e:  # noqa   the read-back loop handles every per-member failure itself
@@ -46,7 +68,7 @@ def function_level():
         sj = getattr(sevenzip, "_safe_join", None)
         if sj is not None:
             for base in (temp_dir, os.path.relpath(temp_dir), temp_dir + "/"):
-                for name in NAMES + (canary, rel):
+                for name in NAMES + (canary, rel) + near + (f"../{bn}x", f"../{bn}_sib/new/file.txt", f"../{bn}", f"../{bn}/inner.txt", f"../{bn}x/../{bn}/ok.txt"):
                     try:
                         r = sj(base, name)
                     except sevenzip.Bad7zFile:
@@ -80,6 +102,10 @@ def find(req):
     import archive_probe
     import C09_probe as P
     oid = (req or {}).get("obligation") or ""
+    if "read-back-path-identifies-one-member-when-the-temp-dir-name-is-known" in oid or (req or {}).get("known_finding") == "C09-7z-read-back-collision-through-temp-dir-name":
+        # a recorded defect of the unchanged tree: probed only for its own obligation, never as a witness for another one
+        r = P.name_collisions_7z_known_temp_name()
+        return r if r is not None else {"reproduced": False, "note": "7z entries re-entering the private directory through its name: no selected member gave another entry's bytes"}
     if "read-back-path-identifies-one-member" in oid or (req or {}).get("known_finding") == "C09-7z-read-back-by-path-collisions":
         # a recorded defect of the unchanged tree: probed only for its own obligation, never as a witness for another one
         r = P.name_collisions_7z()
